@@ -31,6 +31,14 @@ def b11 (s : List UInt8) : String :=
   | .error e => "err " ++ e.name
   | .ok i => dump s i
 
+def semOp (s : List UInt8) (sigValid : Bool) : String :=
+  match Bolt11.parseSigned s with
+  | .error _ => "noparse"
+  | .ok i =>
+    match Bolt11.fromSigned sigValid i with
+    | .ok _ => "ok"
+    | .error e => "err " ++ e.name
+
 def hrpOp (s : List UInt8) : String :=
   match Bolt11.parseHrp (s.map (fun b => Char.ofNat b.toNat)) with
   | .error e => "err " ++ e.name
@@ -56,7 +64,8 @@ def merkle (b : List UInt8) : String :=
   | some rs =>
     let r1 := Merkle.rootHash Merkle.shaH rs
     let r2 := Merkle.rootHashInPlace Merkle.shaH rs
-    if r1 != r2 then "model-internal-mismatch" else if r1.isEmpty then "err empty" else hex r1
+    let r3 := Merkle.rootHashInPlaceArr Merkle.shaH rs
+    if r1 != r2 || r1 != r3 then "model-internal-mismatch" else if r1.isEmpty then "err empty" else hex r1
 
 def digest (tag b : List UInt8) : String :=
   match Merkle.parseStream b with
@@ -93,6 +102,31 @@ def mhmac (payer : Bool) (key iv md tlv : List UInt8) : String :=
     | none => "err"
     | some h => hex h
 
+/-- offer verification; in the key-deriving mode the public key comparison (secp256k1, trusted) is
+    taken as passed and the derived secret is printed -/
+def offerVerifyOp (key nonce b : List UInt8) : String :=
+  match Merkle.parseStream b with
+  | none => "err malformed"
+  | some rs =>
+    let pk := match rs.find? (fun r => r.ty == OfferMeta.OFFER_ISSUER_ID_TYPE) with
+      | some r => OfferMeta.recValue r | none => []
+    match OfferMeta.offerVerify Ldk.Prim.hmacSha256 (fun _ => pk) key (if nonce.isEmpty then none else some nonce) rs with
+    | .err => "err"
+    | .okNoKeys => "ok"
+    | .okKeys sk => "keys " ++ hex sk
+
+/-- invoice verification by the payer; key-deriving mode as in `offerVerifyOp` -/
+def invoiceVerifyOp (key b : List UInt8) : String :=
+  match Merkle.parseStream b with
+  | none => "err malformed"
+  | some rs =>
+    let pk := match rs.find? (fun r => r.ty == OfferMeta.INVOICE_REQUEST_PAYER_ID_TYPE) with
+      | some r => OfferMeta.recValue r | none => []
+    match OfferMeta.invoiceVerify Ldk.Prim.hmacSha256 (fun _ => pk) key rs with
+    | .err => "err"
+    | .okNoKeys => "ok"
+    | .okKeys _ => "ok"
+
 end C18
 
 def c18b11 : Drv where
@@ -101,6 +135,7 @@ def c18b11 : Drv where
   step := fun _ ws =>
     match ws with
     | ["b11", s] => ((), C18.b11 (unhex s))
+    | ["sem", s, v] => ((), C18.semOp (unhex s) (v == "1"))
     | ["hrp", s] => ((), C18.hrpOp (unhex s))
     | ["amt", cur, m] => ((), C18.amtOp cur m)
     | ["chk", h, d] => ((), hex (createChecksum (unhex h) (unhex d)))
@@ -116,6 +151,8 @@ def c18b12 : Drv where
     | ["merkle", b] => ((), C18.merkle (unhex b))
     | ["digest", t, b] => ((), C18.digest (unhex t) (unhex b))
     | ["mverify", k, key, iv, md, tlv] => ((), C18.mverify (k == "p") (unhex key) (unhex iv) (unhex md) (unhex tlv))
+    | ["invverify", key, b] => ((), C18.invoiceVerifyOp (unhex key) (unhex b))
+    | ["offerverify", key, nonce, b] => ((), C18.offerVerifyOp (unhex key) (unhex nonce) (unhex b))
     | ["mhmac", k, key, iv, md, tlv] => ((), C18.mhmac (k == "p") (unhex key) (unhex iv) (unhex md) (unhex tlv))
     | _ => ((), "bad-op")
 
